@@ -22,6 +22,8 @@ ASSUMPTIONS = ['termination of the block loop is not decided (each iteration con
 def run(prog, rep, tier):
     # ---------------- R02.1
     scope, taint, seen, table = c08.run_census(prog, rep, 'c02', 'R02.1')
+    # "repair terminates": the buffer of the block copy loop is never empty (shared with C08)
+    c08.read_buffers_never_empty(prog, rep, scope, 'R02.9')
     rep.floor('R02.1', len(seen), 40, 'panic sites in the fail-safe scope')
     body = one_body(prog, rep, 'R02', 'mla', adt='ArchiveFailSafeReader', name='convert_to_archive')
     if body is None:
